@@ -30,8 +30,21 @@ use elliptic_curve::{group::Curve, hash2curve::ExpandMsg};
 use serde::{Deserialize, Serialize};
 
 #[derive(Clone, PartialEq, Eq, Debug, Serialize, Deserialize)]
+#[serde(try_from = "G2Projective")]
 /// Represents a BBS+ public key.
 pub struct BBSplusPublicKey(pub G2Projective);
+
+impl TryFrom<G2Projective> for BBSplusPublicKey {
+    type Error = Error;
+
+    /// Same validity rule as [`BBSplusPublicKey::from_bytes`]: W must not be Identity_G2
+    fn try_from(value: G2Projective) -> Result<Self, Self::Error> {
+        if bool::from(value.is_identity()) {
+            return Err(Error::KeyDeserializationError);
+        }
+        Ok(Self(value))
+    }
+}
 
 impl BBSplusPublicKey {
     /// The length of the coordinate in bytes.
